@@ -44,6 +44,7 @@ type HarnessResult struct {
 	Unknowns      int
 	OverApprox    int
 	Solver        SolverStats
+	Fallback      FallbackStats
 	Wall          time.Duration
 	Samples       []map[string]interface{}
 	Funcs         map[string]bool
@@ -168,6 +169,12 @@ func (e *Explorer) Run() *HarnessResult {
 			e.res.Solver.Unknown += st.Unknown
 			e.res.Solver.Time += st.Time
 			e.res.Solver.Restarts += st.Restarts
+			fb := m.sol.Fallbacks
+			e.res.Fallback.Asked += fb.Asked
+			e.res.Fallback.Sat += fb.Sat
+			e.res.Fallback.Unsat += fb.Unsat
+			e.res.Fallback.Unknown += fb.Unknown
+			e.res.Fallback.Time += fb.Time
 			for _, f := range m.funcList() {
 				e.res.Funcs[f] = true
 			}
